@@ -570,3 +570,272 @@ func cliCaseLine(kind string, args []string, stdin string, env [][2]string) stri
 	}
 	return fmt.Sprintf("(%s %s %s (%s))", kind, hexList(args), Hexs([]byte(stdin)), strings.Join(es, " "))
 }
+
+// ---------------------------------------------------------------------------------------------
+// structured arguments: every builtin that looks INSIDE its argument gets that structure at, below and
+// above the expected size and with wrong element types
+
+var numPool = []any{0, 1, -1, 2, 5, 7, 11, 12, 13, 23, 24, 31, 59, 60, 61, 99, 365, 366, 1970, 2015, 2024, 9999, 10000, -1970, 100000,
+	math.MaxInt32, math.MinInt32, math.MaxInt64, math.MinInt64, 1 << 53,
+	0.0, math.Copysign(0, -1), 0.5, 1.5, 47.999, 59.9999999999, -0.5, 1e9, 1e17, 1e19, -1e19, 1e300, math.MaxFloat64, math.SmallestNonzeroFloat64,
+	math.NaN(), math.Inf(1), math.Inf(-1),
+	bigOf("0"), bigOf("7"), bigOf("18446744073709551616"), bigOf("-18446744073709551616"), bigOf("9223372036854775808"),
+	json.Number("3"), json.Number("2024"), json.Number("1e1000"), json.Number("-1e1000"), json.Number("1.5"), json.Number("12345678901234567890"), json.Number("0.0000001")}
+
+func (g *gen) num() any { return numPool[g.r.Intn(len(numPool))] }
+
+// an array of n elements, numeric except for `wrong` positions
+func (g *gen) numArray(n int, wrongPct int) []any {
+	xs := make([]any, n)
+	for i := range xs {
+		if g.r.Intn(100) < wrongPct {
+			xs[i] = g.scalar()
+		} else {
+			xs[i] = g.num()
+		}
+	}
+	return xs
+}
+
+var timeFormats = []string{"%Y-%m-%dT%H:%M:%SZ", "%", "%%", "%Y%", "%-", "%E", "%O", "%Ey", "%_", "%0", "%^", "%#", "%:", "%::z", "%:::z", "%10Y", "%-d", "%_d", "%e %Z %j %a %A %b %B %c %C %D %F %g %G %h %I %k %l %n %p %P %r %R %s %S %t %T %u %U %V %v %w %W %x %X %y %z %+",
+	"", "a", "%Q", "%J", "%é", "%\xff", "%1", "%999999999999999999999Y", "%N", "%f", "%L", "%3N", "%%%", "%Y-%m-%d %H:%M:%S %z", "%s", "%j", "%U %w", "%G-W%V-%u", "%Z", "%c"}
+var timeStrings = []string{"2015-03-05T23:51:47Z", "", "2015", "10:20", "2015-13-45T25:61:61Z", "0000-00-00T00:00:00Z", "9999-12-31T23:59:60Z", "-1", "1425599507", "Thu Mar  5 23:51:47 2015", "2015-03-05T23:51:47+99:99",
+	"2015-03-05T23:51:47.123456789123Z", "366", "53 7", "2015-W53-7", "%", "\xff", "UTC", "JST", "12 PM", "Z", "+0000", "99999999999999999999"}
+var timeFuncs = []string{"mktime", "gmtime", "localtime", "todate", "todateiso8601", "fromdate", "fromdateiso8601", "date", "dateadd(\"seconds\"; 1)", "datesub(\"seconds\"; 1)", "dateadd(\"x\"; nan)",
+	"strftime(%F)", "strflocaltime(%F)", "strptime(%F)", "strptime(%F) | mktime", "gmtime | mktime", "gmtime | todate", "mktime | gmtime", "strftime(%F) | strptime(%F)", "todate | fromdate", "now | gmtime | .[:$n] | mktime", "gmtime | strftime(%F)", "localtime | strflocaltime(%F)"}
+
+var regexFlagLetters = "gixsnlpGIXSNabcdefhjkmoqrtuvwyz01 -,\x00é"
+var regexes = []string{"", "a", "a*", "(a)|(b)", "(?<x>a)(?<y>b)?", "(?<x>a)|(?<x>b)", "[", "(", "\\", "a{1000}", "a{1001}", "(a*)*b", "^", "$", "\\b", ".", "(?i)A", "(?<n>)", "\\p{Greek}", "\\X", "(?=a)", "(?<=a)b", "\\1", "(a)\\1", "[[:alpha:]]", "\xff", "é+", "(?P<x>a)", "(|)", "()", "a|", "x*?", "\\z", "\\Z"}
+
+var entryKeys = []string{"key", "k", "name", "Name", "Key", "K", "value", "v", "Value", "V", "KEY", "keys", "", "key ", "\x00"}
+
+func (g *gen) entriesValue() any {
+	n := g.r.Intn(5)
+	xs := make([]any, n)
+	for i := range xs {
+		switch g.r.Intn(6) {
+		case 0:
+			xs[i] = g.scalar()
+		case 1:
+			xs[i] = []any{g.scalar(), g.scalar()}
+		default:
+			m := map[string]any{}
+			for k := g.r.Intn(4); k > 0; k-- {
+				m[entryKeys[g.r.Intn(len(entryKeys))]] = g.value(1)
+			}
+			xs[i] = m
+		}
+	}
+	return xs
+}
+
+func (g *gen) pathElem(depth int) any {
+	switch g.r.Intn(12) {
+	case 0:
+		return g.key()
+	case 1, 2:
+		return g.num()
+	case 3:
+		return nil
+	case 4:
+		m := map[string]any{}
+		for _, k := range []string{"start", "end", "step", "x", "Start", ""} {
+			if g.r.Chance(1, 2) {
+				m[k] = g.num()
+			}
+		}
+		if g.r.Chance(1, 5) {
+			m["start"] = g.scalar()
+		}
+		return m
+	case 5:
+		if depth > 0 {
+			return g.pathValue(depth - 1)
+		}
+		return []any{}
+	case 6:
+		return []any{0, 1}[g.r.Intn(2)]
+	case 7:
+		return "a"
+	case 8:
+		return -1
+	}
+	return g.scalar()
+}
+
+func (g *gen) pathValue(depth int) any {
+	n := g.r.Intn(6)
+	xs := make([]any, n)
+	for i := range xs {
+		xs[i] = g.pathElem(depth)
+	}
+	return xs
+}
+
+func (g *gen) jsonLit(v any) string { bs, _ := json.Marshal(jsonable(v)); return string(bs) }
+
+// jsonable maps a Go value of the pool to something encoding/json prints as a gojq literal (NaN/Inf/big
+// become expressions later; here they are replaced by neighbours that are literals)
+func jsonable(v any) any {
+	switch v := v.(type) {
+	case float64:
+		if math.IsNaN(v) || math.IsInf(v, 0) {
+			return nil
+		}
+		return v
+	case *big.Int:
+		return json.Number(v.String())
+	case string:
+		return strings.ToValidUTF8(v, "?")
+	case []any:
+		out := make([]any, len(v))
+		for i := range v {
+			out[i] = jsonable(v[i])
+		}
+		return out
+	case map[string]any:
+		out := map[string]any{}
+		for k, x := range v {
+			out[strings.ToValidUTF8(k, "?")] = jsonable(x)
+		}
+		return out
+	}
+	return v
+}
+
+var countLits = []string{"0", "1", "-1", "2", "3", "10", "nan", "infinite", "-infinite", "1e1000", "-1e1000", "0.5", "-0.5", "1e9", "1e18", "9223372036854775807", "-9223372036854775808", "9223372036854775808",
+	"null", "\"1\"", "[]", "{}", "true", "(1,2)", "empty", "1.9999999", "-0", "2147483648", "536870912", "(0/0)?", "$a", "."}
+var wrappers = []string{"%s", "try (%s) catch .", "[%s]", "[limit(3; %s)]", "first(%s)", "path(%s)", "(%s)?", "[.[]? | %s]", "%s | tojson", "[%s] | length", "%s as $x | $x", "del(%s)", "(%s) |= .", "(%s) = 1", "[paths(%s)]?", "label $l | %s | ., break $l", "reduce (%s) as $x (0; . + 1)", "isvalid(%s)?", "%s, %s", "[%s | .. ]", "input | %s", "$a | %s", "$b | %s"}
+
+func (g *gen) wrap(q string) string {
+	w := wrappers[g.r.Intn(len(wrappers))]
+	if g.r.Chance(1, 2) {
+		w = "%s"
+	}
+	return strings.ReplaceAll(w, "%s", q)
+}
+
+// structuredCase returns a query and its input. k selects the family (systematic sweeps pass k and size).
+func (g *gen) structuredCase(k, size int) (string, any) {
+	qs := func(s string) string { return g.jsonLit(s) }
+	switch k % 12 {
+	case 0: // broken-down time of every length, mostly numeric
+		f := timeFuncs[g.r.Intn(len(timeFuncs))]
+		f = strings.ReplaceAll(f, "%F", qs(timeFormats[g.r.Intn(len(timeFormats))]))
+		f = strings.ReplaceAll(f, "$n", fmt.Sprint(size))
+		in := any(g.numArray(size, []int{0, 0, 10, 30}[g.r.Intn(4)]))
+		if g.r.Chance(1, 6) {
+			in = g.num()
+		}
+		return g.wrap(f), in
+	case 1: // time strings and formats
+		f := g.pick([]string{"strptime(%F)", "strptime(%F) | mktime", "fromdate", "fromdateiso8601", "dateadd(\"seconds\"; 1)", "date", "strptime(%F) | strftime(%F)", "strptime(%F) | todate"})
+		for strings.Contains(f, "%F") {
+			f = strings.Replace(f, "%F", qs(timeFormats[g.r.Intn(len(timeFormats))]), 1)
+		}
+		return g.wrap(f), timeStrings[g.r.Intn(len(timeStrings))]
+	case 2: // paths of odd shapes
+		p := g.jsonLit(g.pathValue(2))
+		ps := g.jsonLit([]any{g.pathValue(1), g.pathValue(1), g.pathElem(1)})
+		f := g.pick([]string{"getpath(" + p + ")", "setpath(" + p + "; 1)", "setpath(" + p + "; .)", "delpaths(" + ps + ")", "delpaths([" + p + "])", "getpath($a)", "setpath($a; $b)", "delpaths($a)", "delpaths([$a])",
+			"paths(type == \"number\")", "[paths]", "leaf_paths", "pick(getpath(" + p + "))", "pick(.[" + g.pick(countLits) + "])", "to_entries", "path(getpath(" + p + "))", "getpath(" + p + ") |= 1", "del(getpath(" + p + "))",
+			"tostream", "fromstream(tostream)", "[tostream] | fromstream(.[])", "truncate_stream(" + g.pick(countLits) + "; tostream)", "fromstream(" + ps + "[])", "fromstream($a[]?)", "getpath([limit(1e6; repeat(\"a\"))])", "getpath([range(1e6)])",
+			"setpath([limit(1e5; repeat(0))]; 1)", "try setpath([range(3e5)]; 1) catch \"x\"", "delpaths([[range(1e5)]])", ".[" + p + "]", ".[" + p + "]?", "has(" + p + "[0]?)", "input_line_number?", "splits(" + p + "[0]?)", "ltrimstr(" + p + ")",
+			"getpath(" + p + "; 1)?", "paths(..)", "any(paths; . == " + p + ")", "[getpath(" + ps + "[])?]", "to_entries | from_entries", "with_entries(.value |= .)", "walk(.)", "walk(if type == \"array\" then sort else . end)", "[..]", "[.. | scalars]", "flatten(" + g.pick(countLits) + ")", "transpose", "add", "any", "all", "group_by(.)", "unique_by(length?)", "min_by(.[0]?)", "tojson | fromjson", "@json", "combinations", "combinations(" + g.pick(countLits) + ")", "indices(" + p + ")", "index(" + p + ")", "inside(" + p + ")", "contains(" + p + ")", "IN(" + p + "[])", "bsearch(" + p + ")", "splits(\"a\"; " + p + ")?", "getpath(" + p + ") as [$x, {a: $y}] | [$x, $y]", ". as " + g.pattern(3) + " | [$x?]?"})
+		in := []any{g.value(3), g.shaped(), g.pathValue(2)}[g.r.Intn(3)]
+		return g.wrap(f), in
+	case 3: // entries
+		f := g.pick([]string{"from_entries", "with_entries(.)", "with_entries(.value += 1)", "with_entries(.key |= tostring)", "with_entries(select(.key))", "map(from_entries?)", "from_entries | to_entries", "with_entries(empty)", "with_entries(., .)", "with_entries({})", "with_entries({key: .value, value: .key})", "with_entries(.key = null)", "with_entries(.key = 1)", "with_entries(.key = [])", "to_entries | map(del(.key)) | from_entries", "INDEX(.key?)", "INDEX(.[]?; .name?)", "[JOIN(INDEX(.[]?; .k?); .[]?; .v?)]", "JOIN({}; .[]?; .key?; add?)", "IN(.[]?)", "group_by(.key?)", "map(has(\"key\")?)", "from_entries?"})
+		return g.wrap(f), g.entriesValue()
+	case 4: // slices: [start,end] given as indices, as slice objects with extra keys, through paths
+		a, b := g.pick(countLits), g.pick(countLits)
+		obj := g.jsonLit(g.pathElem(0))
+		f := g.pick([]string{".[" + a + ":" + b + "]", ".[" + a + ":]", ".[:" + b + "]", ".[" + a + ":" + b + "] = [1]", ".[" + a + ":" + b + "] |= map(.)", "del(.[" + a + ":" + b + "])", ".[" + a + ":" + b + "][" + a + ":" + b + "]", "path(.[" + a + ":" + b + "])",
+			"getpath([{\"start\":" + a + ",\"end\":" + b + "}])", "setpath([{\"start\":" + a + ",\"end\":" + b + ",\"x\":1}]; [1])", "delpaths([[{\"start\":" + a + ",\"end\":" + b + "}]])", "delpaths([[{\"start\":" + a + "}]])", "setpath([{\"end\":" + b + "}]; [])",
+			".[" + obj + "]", ".[" + obj + "]?", "getpath([" + obj + "])", "setpath([" + obj + "]; 1)", "delpaths([[" + obj + "]])", "to_entries[" + a + ":" + b + "]", "tojson[" + a + ":" + b + "]", "explode[" + a + ":" + b + "] | implode", "[.[" + a + ":" + b + "]?, .[" + b + ":" + a + "]?]", "limit(" + a + "; .[]?)", "skip(" + a + "; .[]?)", "nth(" + a + "; .[]?)", "nth(" + a + ")", "first(range(" + a + "; " + b + "))", "[range(" + a + "; " + b + "; " + g.pick(countLits) + ")][:5]", "[limit(5; range(" + a + "; " + b + "; " + g.pick(countLits) + "))]", "until(. > " + a + "; . + 1e17)?", "[limit(3; repeat(" + a + "))]", ". * " + a, "ltrimstr(" + a + ")", "splits(" + a + ")?", ".[" + a + "] = 1", ".[" + a + "]", "del(.[" + a + ", " + b + "])", "to_entries | .[" + a + ":" + b + "] | from_entries", "indices(" + a + ")", ".[" + a + ":" + b + "] as [$x] | $x", "getpath([" + a + ", " + b + "])", "setpath([" + a + "]; " + b + ")", "flatten(" + a + ")", "combinations(" + a + ")", "[limit(" + a + "; inputs)]", "ascii(" + a + ")?", "@text \"\\(.[" + a + ":" + b + "])\"", "tostring[" + a + ":" + b + "]", "ltrimstr(.[" + a + ":" + b + "]?)", "walk(.[" + a + ":" + b + "]?)", "getpath([" + a + "]) = " + b, "input[" + a + ":" + b + "]?", "$a[" + a + ":" + b + "]", "[.[]?[" + a + ":" + b + "]?]", "splits(\"\")[" + a + ":" + b + "]?"})
+		in := []any{g.numArray(size, 50), "abcdefghij日本語", g.value(2), nil, g.key()}[g.r.Intn(5)]
+		return g.wrap(f), in
+	case 5: // regular expressions with every flag letter and 3+ argument forms
+		re := qs(regexes[g.r.Intn(len(regexes))])
+		fl := ""
+		for n := g.r.Intn(4); n > 0; n-- {
+			fl += string(regexFlagLetters[g.r.Intn(len(regexFlagLetters))])
+		}
+		flags := qs(strings.ToValidUTF8(fl, "?"))
+		if g.r.Chance(1, 6) {
+			flags = g.pick(countLits)
+		}
+		rep := g.pick([]string{"\"x\"", "\"\\(.x)\"", "\"\\(.x, .y)\"", "(\"a\",\"b\")", "empty", "1", ".x", "\"\\(.)\"", "[.x]", "null", "\"\\(error)\"", "\"\\(.x?)\"", "$a"})
+		f := g.pick([]string{"test(" + re + "; " + flags + ")", "match(" + re + "; " + flags + ")", "capture(" + re + "; " + flags + ")", "scan(" + re + "; " + flags + ")", "split(" + re + "; " + flags + ")", "splits(" + re + "; " + flags + ")", "sub(" + re + "; " + rep + "; " + flags + ")", "gsub(" + re + "; " + rep + "; " + flags + ")",
+			"sub(" + re + "; " + rep + ")", "gsub(" + re + "; " + rep + ")", "test([" + re + ", " + flags + "])", "match([" + re + ", " + flags + ", 1])", "match([" + re + "])", "match([])", "test([])", "capture([" + re + ", " + flags + "])", "[match(" + re + "; \"g\") | .captures | length]", "ascii_downcase | test(" + re + ")", "split(" + re + ")", "[splits(" + re + ")]", "sub(" + re + "; " + rep + "; " + flags + "; 1)?", "gsub(\"\"; " + rep + ")", "[match(" + re + "; \"g\").offset]", "capture(" + re + ") | keys", "match(" + re + "; null)", "test(" + re + "; [])", "sub((\"a\",\"b\"); (\"c\",\"d\"))", "gsub(\"(?<x>.)\"; \"\\(.x)\\(.x)\")", "gsub(\"\\\\s\"; \"\")", "gsub(\"^\"; \">\")", "gsub(\"$\"; \"<\")", "gsub(\"\"; \"-\"; \"g\")", "[scan(\".\"; \"g\")]", "scan(" + re + ") | tojson", "ltrimstr(" + re + ")", "trimstr(" + re + ")", "rtrimstr(" + re + ")", "startswith(" + re + ")", "endswith(" + re + ")", "index(" + re + ")", "indices(" + re + ")", "splits(" + re + "; " + flags + "; 1)?", "ascii", "@uri \"\\(.)\" | test(" + re + ")", "test(" + re + "; " + flags + "; 1)?"})
+		in := []any{"abc", "", "aAbB\nab", "日本語 abc", "a\xffb", "aaaaaaaaaaaaaaaaaaaaaaaaaaaaaaaaaaaaaaaaaaaaaaaaaaaa", "ab\x00ab", g.key(), g.scalar()}[g.r.Intn(9)]
+		return g.wrap(f), in
+	case 6: // counts: huge / negative / NaN / wrong-typed
+		n, m := g.pick(countLits), g.pick(countLits)
+		f := g.pick([]string{"limit(" + n + "; range(" + m + "))", "[limit(" + n + "; repeat(1))][:3]", "first(limit(" + n + "; 1, 2))", "range(" + n + ")", "[range(" + n + "; " + m + ")][:3]", "[limit(3; range(0; " + n + "; " + m + "))]", "[limit(3; range(" + n + "; 0; " + m + "))]", "until(. >= " + n + "; . * 2 + 1)", "[limit(4; while(. < " + n + "; . + " + m + "))]", "nth(" + n + "; range(" + m + "))", "nth(" + n + ")", "skip(" + n + "; range(5))", "[limit(3; skip(" + n + "; repeat(1)))]", "first(range(" + n + "))", "last(range(" + n + "))?", "isempty(range(" + n + "))", "\"ab\" * " + n, ". * " + n, "[.[]? * " + n + "]", "flatten(" + n + ")", "combinations(" + n + ")", "[limit(3; combinations(" + n + "))]", "ltrimstr(" + n + ")", "rtrimstr(" + n + ")", "trimstr(" + n + ")", "startswith(" + n + ")", "endswith(" + n + ")", "join(" + n + ")", "split(" + n + ")", "splits(" + n + ")", "ascii_downcase", "ascii_upcase", "trim", "ltrim", "rtrim", "tojson", "fromjson", "tonumber", "tostring", "toarray", "toboolean?", "implode", "explode", "@sh", "@csv", "@tsv", "@html", "@uri", "@urid", "@base64", "@base64d", "@base32", "@base32d", "@json", "@text", "@sh \"x \\(.)\"", "@csv \"\\(.)\"", "@tsv \"\\(.[]?)\"", "utf8bytelength", "length", "abs", "not", "keys", "keys_unsorted?", "values", "has(" + n + ")", "in(" + n + ")", "contains(" + n + ")", "inside(" + n + ")", "indices(" + n + ")", "index(" + n + ")", "rindex(" + n + ")", "bsearch(" + n + ")", "getpath([" + n + "])", "pow(.; " + n + ")", "pow(" + n + "; .)", "log2", "exp10", "ldexp(.; " + n + ")", "scalb(.; " + n + ")", "scalbln(.; " + n + ")", "nearbyint", "trunc", "significand", "drem(.; " + n + ")", "frexp", "modf", "gamma", "lgamma", "tgamma", "lgamma_r?", "fma(.; " + n + "; " + m + ")", "jn(3; .)", "yn(3; .)", "splits(\"a\"; null)", "env[" + n + "]?", "$ENV[" + n + "]?", "input_filename", "halt_error(" + n + ")", "error(" + n + ")", "try error(" + n + ") catch .", "limit(" + n + "; error)", "tojson | .[:" + n + "] | fromjson?", "getpath([\"a\"] * " + n + ")?", "add(" + n + "; .[]?)?", "add(.[]?)", "any(.[]?; " + n + ")", "all(" + n + "; .)", "min_by(" + n + ")", "sort_by(" + n + ", " + m + ")", "group_by(" + n + ")", "unique_by(" + n + ")", "[.[]?] | sort | bsearch(" + n + ")", "walk(" + n + ")", "with_entries(" + n + ")?", "recurse(.[]?; " + n + ")", "[limit(5; recurse(. + 1; . < " + n + "))]", "[limit(5; recurse(if . < " + n + " then . + 1 else empty end))]", "last(limit(" + n + "; range(10)))", "[limit(" + n + "; limit(" + m + "; repeat(1)))][:2]", "first(inputs)", "[limit(" + n + "; inputs)]", "input, input, input, input, input", "ltrimstr(\"a\") * " + n, "[splits(\"\")] | .[" + n + "]", "getpath([\"a\", " + n + ", \"b\"])", "setpath([" + n + "]; 1)", "setpath([\"a\", " + n + "]; 1)", "del(.[" + n + "])", "to_entries[" + n + "]", "delpaths([[" + n + "]])", "[.[" + n + "]?, .[" + m + "]?]", "tojson | length"})
+		var in any
+		switch g.r.Intn(6) {
+		case 0:
+			in = g.num()
+		case 1: // code points, in and out of range
+			xs := make([]any, size)
+			for i := range xs {
+				xs[i] = []any{0, 65, 0x7f, 0x80, 0x7ff, 0x800, 0xd7ff, 0xd800, 0xdfff, 0xe000, 0xfffd, 0xffff, 0x10000, 0x10ffff, 0x110000, -1, math.MaxInt32, math.MaxInt64, math.MinInt64, 1.5, 65.9, math.NaN(), math.Inf(1), bigOf("18446744073709551616"), bigOf("65"), json.Number("66"), json.Number("1e1000"), "a", nil, []any{65}}[g.r.Intn(30)]
+			}
+			in = xs
+		case 2: // nested containers for @sh / @csv / @tsv
+			in = []any{g.scalar(), []any{g.scalar()}, map[string]any{"a": g.scalar()}, g.num(), g.key(), nil, true, []any{[]any{}}}[:1+g.r.Intn(8)]
+		case 3: // deep value for tojson / walk / flatten
+			var v any = g.scalar()
+			for i := 0; i < []int{10, 100, 1000, 5000}[g.r.Intn(4)]; i++ {
+				if g.r.Chance(2, 3) {
+					v = []any{v}
+				} else {
+					v = map[string]any{"a": v}
+				}
+			}
+			in = v
+		case 4:
+			in = g.key()
+		default:
+			in = g.numArray(size, 20)
+		}
+		return g.wrap(f), in
+	case 7: // the jq-defined wrappers get the same structures through variables
+		f := g.pick([]string{"$a | mktime", "$a | todate", "$a | strftime($b)", "$a | strptime($b)", "getpath($a)", "setpath($a; $b)", "delpaths($a)", "$a | from_entries", "$a | implode", "$a | join($b)", "$a | flatten", "$a | transpose", "$a | add", "$a | tojson", "$a | @csv", "$a | @tsv", "$a | @sh", ".[$a]", ".[$a:$b]", ".[$a] = $b", "limit($a; .[]?)", "range($a; $b)", "test($a; $b)", "sub($a; $b)", "$a | ltrimstr($b)", "$a * $b", "$a - $b", "$a / $b", "$a % $b", "$a | indices($b)", "$a | has($b)", "$b | in($a)", "$a | contains($b)", "$a | splits($b)", "$a | bsearch($b)", "$a | group_by($b)?", "$a | strflocaltime($b)", "$a | gmtime", "$a | dateadd($b; 1)", "$ENV | getpath($a)", "$a | fromstream(.[]?)", "$a | combinations", "$a | tostream", "[$a, $b] | transpose", "$a | to_entries", "$a | with_entries(.)", "$a | @base32d", "$a | fromjson", "$a | tonumber", "$a | ascii", "$a | @uri", "$a | min_by(.[0]?)", "$a | pick(.[0]?)", "$a | getpath([\"a\", 0]) = $b", "$a | walk($b)", "$a | error", "$a | halt_error", "try ($a | error) catch .", "$a | splits(\"a\"; $b)", "$a as [$x, $y] | [$x, $y]", "$a as {a: $x} | $x", "$a | .[] as [$x] ?// $x | $x"})
+		return g.wrap(f), g.value(2)
+	case 8: // strftime family again, numeric epoch inputs of every representation
+		f := timeFuncs[g.r.Intn(len(timeFuncs))]
+		f = strings.ReplaceAll(f, "%F", qs(timeFormats[g.r.Intn(len(timeFormats))]))
+		f = strings.ReplaceAll(f, "$n", fmt.Sprint(size))
+		return g.wrap(f), g.num()
+	case 9: // object construction / destructuring with odd keys
+		f := g.pick([]string{"{(.[]?): 1}", "{(.[]?|tostring): .}", "with_entries(.key |= ascii_downcase?)", "to_entries | map(.key) | implode?", ". as {a: $x, $y, \"b\": [$z]} | [$x, $y, $z]", ". as [$x, [$y], {a: $z}] | [$x, $y, $z]", ". as [$x] ?// {a: $x} ?// $x | $x", "[.[]? as [$a, $b] | {a: $a, b: $b}]", "{a: .[]?} | .a", "{$__loc__}", "{\"a\\(.[]?)\": 1}", "{(\"a\", \"b\"): (1, 2)}", "{a: 1} * .", ". * {a: {b: 1}}", "[.[]? | objects] | add", "map_values(empty)", "map_values(., .)", "map(., .)", "del(.[])", "del(..)", "delpaths([paths])", "to_entries | map(select(.value)) | from_entries", "[paths] | map(tojson) | unique", "reduce .[]? as [$k, $v] ({}; .[$k|tostring] = $v)", "foreach .[]? as {a: $x} (0; . + ($x // 0))", "getpath(paths)", "[paths(type == \"array\")] | length", "pick(.a.b.c)", "pick(.[0][1])", "pick(first)", "pick(..)?", "have_literal_numbers", "$__prog_args?", "ltrimstr(.a?)", "tojson | fromjson == ."})
+		return g.wrap(f), g.value(3)
+	case 10: // implode / explode / string functions on out-of-range and wrong-typed data
+		f := g.pick([]string{"implode", "implode | explode", "map(implode?)", "[.[]?] | implode", "explode | implode", "explode | map(. + 1) | implode", "explode | map(. * 1000) | implode", "[.[]? | [.] | implode?]", "implode | @json", "implode | ascii_downcase", "implode | test(\"a\")", "implode | utf8bytelength", "implode | ltrimstr(\"a\")", "implode | @uri", "implode | @base32 | @base32d", "implode | @base64 | @base64d", "implode | tojson | fromjson", "implode | split(\"\")", "implode | [splits(\"\")]", "implode | .[1:-1]", "implode | ascii", "implode | trim"})
+		_, in := g.structuredCase(6+12*1, size) // reuse the code point arrays of family 6 often enough
+		if g.r.Chance(1, 2) {
+			xs := make([]any, size)
+			for i := range xs {
+				xs[i] = []any{0, 65, 0xd800, 0xdfff, 0x10ffff, 0x110000, -1, math.MaxInt64, 1.5, math.NaN(), bigOf("18446744073709551616"), "a", nil}[g.r.Intn(13)]
+			}
+			in = xs
+		}
+		return g.wrap(f), in
+	}
+	// 11: every builtin applied to a numeric array of the given size, and with it as each argument
+	b := g.builtins[g.r.Intn(len(g.builtins))]
+	args := make([]string, b.arity)
+	for i := range args {
+		args[i] = g.pick([]string{".", "$a", ".[0]", ".[]", "length", g.atom(), g.pick(countLits)})
+	}
+	s := b.name
+	if b.arity > 0 {
+		s += "(" + strings.Join(args, "; ") + ")"
+	}
+	if infinite[b.name] {
+		s = "limit(5; " + s + ")"
+	}
+	return g.wrap(s), g.numArray(size, 10)
+}
